@@ -384,6 +384,17 @@ DUPF = DUP_RECURSIVE | DUP_WITH_FLAGS
 CMPX = CMP_FULL | CMP_DEFAULTS
 
 
+def strip_flags(dump):
+    """dump lines without their flag field"""
+    out = []
+    for seg in dump.split(";"):
+        p = seg.split(":")
+        if len(p) > 4:
+            p[4] = ""
+        out.append(":".join(p))
+    return ";".join(out)
+
+
 def schema_has(m, pred):
     return any(pred(n) for n in m.all_nodes())
 
@@ -394,6 +405,7 @@ class Diff(Oracle):
     apply(merge(diff(A,B),diff(B,C)),A)=C; merging the undo leaves no change."""
     name = "diff"
     family = "plain"             # plain: no user-ordered / duplicate-instance lists; "uord": with them
+    parts = ("forward", "reverse")   # forward = C06 laws, reverse = C13 laws (reverse, merge, merge-undo)
 
     def __init__(self):
         self.info = {}
@@ -424,8 +436,8 @@ class Diff(Oracle):
                 else:
                     s.add("inv", "t3")                     # +5
                 s.add("cmp", "t3", "t1", CMPX if opts else CMP_FULL)   # +6
-                s.dump(3, 0 if opts else 2)                # +7
-                s.dump(1, 0 if opts else 2)                # +8
+                s.dump(3, 0)                               # +7
+                s.dump(1, 0)                               # +8
             # purity
             s.dump(0); s.dump(1)                           # 25 26
             # reverse (defaults diff)
@@ -484,10 +496,18 @@ class Diff(Oracle):
             if opts and r[k + 5] != "ok":
                 return (None, "tree after apply breaks an invariant: " + r[k + 5])
             if (not opts) and rc(r[k + 5]) != 0:
-                return (None, "validation after apply failed: " + r[k + 5])
+                t = "dflt-orphan-after-delete" if ("too-few" in r[k + 5] or "/9/" in r[k + 5] or "/10/" in r[k + 5]) else None
+                return (t, "validation after apply failed: " + r[k + 5])
             if (not opts) and "empty" in (a0, b0):
                 pass        # LYD_VALIDATE_PRESENT adds no defaults to an empty tree: not comparable after re-validation
-            elif r[k + 6] != "0" or r[k + 7] != r[k + 8]:
+            elif r[k + 6] != "0" or (r[k + 7] != r[k + 8] if opts else strip_flags(r[k + 7]) != strip_flags(r[k + 8])):
+                if not opts:
+                    sa, sb = r[k + 7].split(";"), r[k + 8].split(";")
+                    extra = [x for x in sa if strip_flags(x) not in {strip_flags(y) for y in sb}]
+                    missing = [x for x in sb if strip_flags(x) not in {strip_flags(y) for y in sa}]
+                    if extra and not missing and all(x.split(":")[4:5] and "d" in x.split(":")[4] for x in extra):
+                        return ("dflt-orphan-after-delete", "default nodes whose enabling explicit data was deleted survive "
+                                "validation: " + ";".join(extra)[:200])
                 if di and r[k + 7].replace(":ds", ":s") == r[k + 8].replace(":ds", ":s"):
                     return ("dupinst-dflt-flag", "instances of a key-less list / state leaf-list that differ only in default flags "
                             "are matched as equal by the diff")
@@ -495,6 +515,11 @@ class Diff(Oracle):
             k += 9
         if r[25] != a0 or r[26] != b0:
             return (None, "diff/apply modified its inputs")
+        if "forward" in self.parts:
+            if rc(r[45]) != 0 or not r[50].startswith("0") or r[51] != "0":
+                return (None, "printed/parsed diff applied after freeing A,B does not give B: rt=%s apply=%s cmp=%s" % (r[45], r[50], r[51]))
+        if "reverse" not in self.parts:
+            return None
         # reverse
         if r[28] != "0":
             return (None, "lyd_diff_reverse_all failed: " + r[28])
@@ -507,14 +532,30 @@ class Diff(Oracle):
                 return (None, "apply(merge(diff(A,B),diff(B,C)),A) != C: merge=%s apply=%s cmp=%s" % (r[34], r[36], r[37]))
             if r[40] != "0" or not r[42].startswith("0") or r[43] != "0":
                 return (None, "merging the undoing diff does not cancel: merge=%s apply=%s cmp=%s" % (r[40], r[42], r[43]))
-        if rc(r[45]) != 0 or not r[50].startswith("0") or r[51] != "0":
-            return (None, "printed/parsed diff applied after freeing A,B does not give B: rt=%s apply=%s cmp=%s" % (r[45], r[50], r[51]))
         return None
 
 
 class DiffUord(Diff):
     name = "diff-uord"
     family = "uord"
+
+
+class DiffFwd(Diff):
+    parts = ("forward",)
+
+
+class DiffUordFwd(DiffUord):
+    parts = ("forward",)
+
+
+class DiffRev(Diff):
+    name = "diff-reverse"
+    parts = ("reverse",)
+
+
+class DiffUordRev(DiffUord):
+    name = "diff-uord-reverse"
+    parts = ("reverse",)
 
 
 # ------------------------------------------------------------------------------------------------
